@@ -61,6 +61,8 @@ exit $rc
 CFG = dict(
     gen=[dict(tool="facts", mode="c13.locks", out="LockFacts.lean", args=[])],
     theorems=["lock_facts_well_locked", "mutex_invariant", "linearizable",
+              "programs_correct_all", "prog_refines_atomic", "prog_linearizable", "model_version_regular",
+              "model_version_counts_updates",
               "fine_refines_atomic", "fine_linearizable", "programs_correct", "critical_section_atomic",
               "locked_artifact_is_atomic",
               "artifact_snapshot", "paramData_snapshot", "completed_before_is_visible", "snapshot_params",
@@ -88,9 +90,17 @@ CFG = dict(
              "refinement fine_refines_atomic, which uses mutual exclusion); that the Go functions ARE such clients — every access to shared "
              "state between Lock and Unlock, micro-steps composing to the sequential effect (programs_correct: artifactTrace splits "
              "process() of the producer one level deep) — rests on the regenerated lock facts (syntactic) and the correspondence, not on a semantics of Go",
-             "UpdateParameter / ParameterData are ONE atomic step in every model (their program is seqStep by definition, and FStep.finish takes the "
-             "response by definition); in Go UpdateParameter is several steps under the lock (Parameter map scan, ApplyMessage, incModelVersion) — "
-             "covered by the lock facts (all three are accesses under the lock) and the correspondence, not by a micro-step theorem",
+             "micro-structure of the critical sections: the program system PExec executes, between Lock() and the deferred Unlock(), the "
+             "micro-steps lookup / version++ / value write / result / incModelVersion (UpdateParameter, the last also after a rejected message), "
+             "lookup / value read (ParameterData), outdated check / one .Value() pull per dependency slot / store / cache read (Artifact), each "
+             "on the current shared state, with the response assembled from what the steps read (programs_correct_all, prog_refines_atomic). "
+             "Granularity residue: each micro-step is atomic; the parameter lookup (map scan + type assertion) is one step; a pulled "
+             "dependency's own .Value() (its whole sub-evaluation) is one step; JSON decoding is pure and folded into the call (update vs "
+             "updateRejected); the program of a call is fixed from the state found at Lock()",
+             "unlocked accesses: ModelVersion() without the lock is modelled as call / atomic load / return events of a client that holds no lock "
+             "(model_version_regular: the value lies between the counter at the call and at the return; the counter only grows; "
+             "model_version_counts_updates: it counts accepted and rejected parameter messages). Before fix 899edf1 the read was not atomic; "
+             "the model is of the fixed code. The whitelisted pre-lock `i.producers[name]` lookup is not an event of the model (no entry point writes that map)",
              "rejected messages: Call.updateRejected answers err and leaves the graph unchanged; that UpdateParameter still bumps the instance's model "
              "version after a rejected message (instance.go:440-442) is outside the model state — the driver mirrors it (mv compared after every "
              "sequential call); undecodable messages are sent only in the sequential families (c13.seq, c13.http.seq), not in the concurrent ones",
@@ -122,8 +132,13 @@ CFG = dict(
              "order: complete, respects real-time precedence, a run of the sequential specification). FINE-GRAINED system FExec (the lock owner "
              "performs any number of micro-steps on the shared state between Lock and Unlock, arbitrarily interleaved with other clients): "
              "critical_section_atomic, fine_refines_atomic (every FExec execution is, through an abstraction function, an Exec execution with "
-             "the same history — the proof uses mutual exclusion) and hence fine_linearizable; programs_correct / locked_artifact_is_atomic (the "
-             "micro-steps of Artifact compose to the sequential Eval). artifact_snapshot / paramData_snapshot / snapshot_params / "
+             "the same history — the proof uses mutual exclusion) and hence fine_linearizable. PROGRAM system PExec: the critical sections are the "
+             "real micro-step programs of the three entry points (UpdateParameter: lookup, version++, value write, result, incModelVersion — "
+             "also after a rejected message; ParameterData: lookup, read; Artifact: outdated check, one .Value() pull per dependency slot, "
+             "store, cache read), each step on the current shared state, the response assembled from what the steps READ: "
+             "programs_correct_all (run without interleaving a program equals its atomic step), prog_refines_atomic / prog_linearizable (no "
+             "side condition left), model_version_regular (an UNLOCKED ModelVersion() read returns a value between the counter at its call "
+             "and at its return) and model_version_counts_updates (the counter = number of accepted and rejected parameter messages). artifact_snapshot / paramData_snapshot / snapshot_params / "
              "completed_before_is_visible (every artifact equals the from-scratch evaluation of ONE parameter valuation, the one at its "
              "linearization point; nothing older than a completed update is read). unlocked_not_linearizable (closed two-client diamond schedule "
              "without the lock mixing two states). witness_check_sound (the executable check implies a well-formed, Linearizable history). "
